@@ -429,6 +429,7 @@ struct seq_state {
     std::size_t ex = 0;            // sizeof(T) of promise_extra_storage, 0 = none
     std::uint64_t next_tag = 1000;
     bool throw_next = false;       // the next call of the extra object's factory throws
+    std::function<std::string()> after_alloc;   // policy specific observation right after a request was served
 };
 
 static std::string where(seq_state &S, const char *p) {
@@ -582,6 +583,7 @@ static std::string op_alloc(seq_state &st, S &stor, std::size_t sz, int kind /* 
         f.sz = sz;
         if (f.ptr && sz) std::memset(f.ptr, f.pat, sz);
         os << "alloc#" << f.id << " sz=" << sz;
+        if (st.after_alloc) os << st.after_alloc();
     } else {
         f.coro = true;
         const bool drop = sz == std::size_t(-2);
@@ -606,6 +608,7 @@ static std::string op_alloc(seq_state &st, S &stor, std::size_t sz, int kind /* 
         async<void> &c = *copt;
         if (last_alloc.seen) { f.ptr = static_cast<char *>(last_alloc.ptr); f.sz = last_alloc.sz; }
         os << " sz=" << f.sz;
+        if (st.after_alloc) os << st.after_alloc();
         if (!last_alloc.seen) os << " noalloc";
         std::string w = where(st, f.ptr);
         std::string exs = extra_after_alloc(st, stor, f, s0);
@@ -849,6 +852,8 @@ static void run_buffer(seq_state &st) {
     } pol;
     pol.b = &buf;
     pol.stor.make(buf);
+    // the user's buffer is the vector's size(), not its capacity: report it (in bytes) after every request
+    st.after_alloc = [&buf] { return " bsz=" + std::to_string(buf.size() * sizeof(Item)); };
     seq_loop(st, pol, [&](const std::vector<std::string> &w) -> std::string {
         if (w[0] == "bufset" && w.size() >= 2) {
             hk::in_region r;
@@ -1029,8 +1034,16 @@ static void run_seq(const std::vector<std::string> &w) {
             return "skip";
         });
     } else if (pol == "buffer") {
+        // element sizes that are powers of two and others (3, 12, 24 bytes)
+        struct e3 { char c[3]; };
+        struct e12 { float x, y, z; };
+        struct e24 { double a, b, c; };
+        static_assert(sizeof(e3) == 3 && sizeof(e12) == 12 && sizeof(e24) == 24);
         if (param == 1) run_buffer<char>(st);
+        else if (param == 3) run_buffer<e3>(st);
         else if (param == 4) run_buffer<std::uint32_t>(st);
+        else if (param == 12) run_buffer<e12>(st);
+        else if (param == 24) run_buffer<e24>(st);
         else run_buffer<std::uint64_t>(st);
     } else {
         std::cout << "bad-policy\n";
